@@ -105,10 +105,10 @@ Section Transfer.
         apply (finish_put_all p1 hist del b p' T1 G F).
         destruct Hx as [I | Cx]; [left; auto | right; eapply tombstone_local_mono; eauto].
       + destruct (tombstone_local mkdig p l _) as [p1|] eqn:TL; [|discriminate].
-        destruct (finish_put p1 (mkid (hd_error hist) mb :: hist) del mb) as [p2 st2] eqn:F.
+        destruct (finish_put p1 (mkid (hd_error hist) mb :: hist) _ mb) as [p2 st2] eqn:F.
         destruct st2; try discriminate. inversion H; subst p2.
         pose proof (tombstone_local_inv mkdig _ _ _ _ T TL) as T1.
-        apply (finish_put_all p1 _ del mb p' T1 (ghist_ext mkdig _ mb G) F).
+        apply (finish_put_all p1 _ _ mb p' T1 (ghist_ext mkdig _ mb G) F).
         destruct Hx as [I | Cx]; [left; right; auto | right; eapply tombstone_local_mono; eauto].
     - apply (finish_put_all p hist del b p' T G H). exact Hx.
   Qed.
@@ -138,7 +138,7 @@ Section Transfer.
       + destruct (tombstone_local mkdig p l _) as [p1|]; [|inversion H; auto].
         destruct (finish_put p1 hist del b) as [p2 st2]. destruct st2; inversion H; subst; congruence.
       + destruct (tombstone_local mkdig p l _) as [p1|]; [|inversion H; auto].
-        destruct (finish_put p1 _ del mb) as [p2 st2]. destruct st2; inversion H; subst; congruence.
+        destruct (finish_put p1 _ _ mb) as [p2 st2]. destruct st2; inversion H; subst; congruence.
     - eapply finish_put_unchanged; eauto.
   Qed.
 
